@@ -1,5 +1,5 @@
 import logging
-from jax.numpy import exp, unique, corrcoef, zeros, abs, stack
+from jax.numpy import exp, unique, corrcoef, zeros, abs, stack, ndim
 from jax.numpy import sum as arraysum
 from jax.numpy.linalg import norm
 from jaxopt import ScipyMinimize
@@ -77,9 +77,12 @@ def compute_ls_time(
 
         x_at_time = x[mask, :-1]
 
-        est = DensityEstimator(
-            nn_distances=nn_distances[mask], **density_estimator_kwargs
-        )
+        kwargs = dict(density_estimator_kwargs)
+        d = kwargs.get("d", None)
+        if d is not None and ndim(d) == 1 and d.shape[0] == mask.shape[0]:
+            # a per-cell dimensionality is restricted to the cells of this time point
+            kwargs["d"] = d[mask]
+        est = DensityEstimator(nn_distances=nn_distances[mask], **kwargs)
         est.fit(x_at_time)
         densities.append(est.predict(states))
         predictors.append(est)
